@@ -16,6 +16,7 @@ import (
 	"net"
 	"strings"
 	"time"
+	"unicode/utf8"
 
 	"gosrc.io/xmpp"
 )
@@ -80,13 +81,34 @@ func genC14c(r *rand.Rand, tier string) []interface{} {
 		case 2:
 			jid = l + "@" + d
 		case 3:
-			jid = l + "@" + d + "/" + res + "@" + l // '@' after the resource separator
+			// '@' after the resource separator; the resource travels as XML character data, which cannot carry
+			// ill-formed UTF-8 or NUL (they are written as U+FFFD): only the local part, which travels inside
+			// base64, is drawn from the whole pool
+			tail := l
+			if !c14cXMLClean(tail) {
+				tail = "Alice"
+			}
+			jid = l + "@" + d + "/" + res + "@" + tail
 		default:
 			jid = l + "@" + d + "/" + res
 		}
 		mk(jid)
 	}
 	return out
+}
+
+// c14cXMLClean: well-formed UTF-8 made of XML characters only (and no CR, which XML readers normalise)
+func c14cXMLClean(s string) bool {
+	if !utf8.ValidString(s) {
+		return false
+	}
+	for _, c := range s {
+		ok := c == 0x9 || c == 0xA || (c >= 0x20 && c <= 0xD7FF) || (c >= 0xE000 && c <= 0xFFFD) || c >= 0x10000
+		if !ok {
+			return false
+		}
+	}
+	return true
 }
 
 // c14cServe: one connection of a server that accepts everything.
